@@ -374,7 +374,7 @@ def coq_eval(name, body, imports, timeout=900):
               timeout=timeout + 30)
 
 
-def coq_failing_indices(name, imports, checker, cases, timeout=900, shard=400):
+def coq_failing_indices(name, imports, checker, cases, timeout=900, shard=400, preamble=''):
     """Evaluate `checker : case -> bool` on the cases (Coq literals) inside Coq.
 
     Returns (failing_indices, error_text_or_None).  One coqc per shard, run in parallel.
@@ -394,6 +394,7 @@ def coq_failing_indices(name, imports, checker, cases, timeout=900, shard=400):
             f.write('Open Scope Z_scope.\n')
             for imp in imports:
                 f.write('From TenpyV Require Import %s.\n' % imp)
+            f.write(preamble)
             f.write(body)
         jobs.append((s, fn))
     procs = []
